@@ -4,7 +4,7 @@
 P=$1; shift
 git -C /repo diff --quiet || { echo "/repo is dirty"; exit 9; }
 git -C /repo apply $P || { echo "patch does not apply"; exit 9; }
-trap 'git -C /repo checkout -q -- .' EXIT
+trap 'git -C /repo checkout -q -- . ; git -C /verif checkout -q -- evidence' EXIT
 for c in "$@"; do
   out=$(cd /verif && timeout 1500 ./check $c --tier ${TIER:-quick} 2>&1); rc=$?
   v=$(echo "$out" | grep -m1 "^  violation" | cut -c1-330)
